@@ -4,6 +4,16 @@ import json,sys
 pid=sys.argv[1]; tag=sys.argv[2] if len(sys.argv)>2 else 'a'
 p=[json.loads(l) for l in open('/verif/properties.jsonl') if json.loads(l)['id']==pid][0]
 wt=f"/tmp/mut-{pid}-{tag}"
+# ideas of earlier rounds for this property (their authors' own summaries, shortened): not to be repeated
+import glob
+used=[]
+for m in sorted(glob.glob(f'/verif/seeded/{pid}-*/meta.json')):
+    try: used.append(json.load(open(m))['summary'][:330])
+    except Exception: pass
+excl=""
+if used:
+    excl=" Ideas that have ALREADY been used and must NOT be repeated (choose a different file/function and a different mechanism): \"" + " ".join(f"({i+1}) {u}" for i,u in enumerate(used)) + "\"."
+excl+=" Do NOT use `git stash` (the stash is shared between all worktrees of /repo): use `git diff > /tmp/<file>.diff; git checkout -- <files>` and `git apply` instead. Do not read anything under /verif or under /root/.claude. The machine is shared and loaded: instead of the whole test suite you may run the packages you touched plus the integration test directories of the affected areas, and say so in meta.json."
 print(f"""You are testing how robust a Go code base is against subtle regressions. The repository is sourcenetwork/defradb (DefraDB: peer-to-peer document database built on Merkle CRDTs over IPLD, GraphQL-style query language, planner, secondary indexes, access control, libp2p sync), checked out at /repo. Do NOT modify /repo itself. Work only in your own git worktree:
 
     git -C /repo worktree add --detach {wt} HEAD
@@ -20,7 +30,7 @@ PROPERTY {p['id']} — {p['title']}
 Quantified over: {p['quantifier']['text']}
 Code anchors: {', '.join(p.get('anchors',{}).get('files',[]))}
 
-YOUR TASK: produce ONE realistic change to the repository source (non-test .go files under {wt}) that BREAKS this property while the code still compiles and the existing test suite still passes. The change should look like a plausible refactoring slip or "optimisation" a developer could make (a dropped condition, a wrong variable, an off-by-one, a reordered pair of statements, a skipped step on one path, two sites that each look fine alone), not sabotage that ordinary use would expose at once: it must need something specific to manifest — a particular interleaving or delivery order, a crash or storage fault at a particular point, a multi-step sequence of operations, an unusual input or value, or a particular configuration. Prefer a change different from the most obvious one.
+YOUR TASK: produce ONE realistic change to the repository source (non-test .go files under {wt}) that BREAKS this property while the code still compiles and the existing test suite still passes. The change should look like a plausible refactoring slip or "optimisation" a developer could make (a dropped condition, a wrong variable, an off-by-one, a reordered pair of statements, a skipped step on one path, two sites that each look fine alone), not sabotage that ordinary use would expose at once: it must need something specific to manifest — a particular interleaving or delivery order, a crash or storage fault at a particular point, a multi-step sequence of operations, an unusual input or value, or a particular configuration. Prefer a change different from the most obvious one.{excl}
 
 Then write a DEMONSTRATION: a Go test file (put it in the most suitable existing package directory of your worktree, file name `zz_demo_{pid.lower()}_test.go`, or a small `package main` program under `{wt}/zz_demo/`) that FAILS with your change applied and PASSES on the unmodified code. Verify both directions yourself: `git stash` (or `git diff > /tmp/x.diff; git checkout -- .`) to test without the change, then re-apply.
 
